@@ -11,7 +11,7 @@ use profirust::dp::PeripheralEvent;
 // C07
 // ------------------------------------------------------------------------------------------------
 
-pub const C07_ALPHABET: [Fault; 8] = [
+pub const C07_ALPHABET: [Fault; 9] = [
     Fault::None,
     Fault::RequestLost,
     Fault::ReplyLost,
@@ -20,6 +20,8 @@ pub const C07_ALPHABET: [Fault; 8] = [
     Fault::DiagPending,
     Fault::UserDiagRequest,
     Fault::WatchdogExpiry,
+    // (a reply after the slot time: its bytes are in the receive buffer when the next request goes out)
+    Fault::LateReply,
 ];
 
 fn conforming_cfg(rng: &mut Rng, nper: usize) -> DpCfg {
@@ -301,8 +303,8 @@ pub fn c07(ctx: &mut Ctx) {
                 let mut seq: Vec<Fault> = vec![Fault::None; prefix];
                 let mut c = code;
                 for _ in 0..depth {
-                    seq.push(C07_ALPHABET[(c % 8) as usize].clone());
-                    c /= 8;
+                    seq.push(C07_ALPHABET[(c % C07_ALPHABET.len() as u64) as usize].clone());
+                    c /= C07_ALPHABET.len() as u64;
                 }
                 let prefixes = [0usize, 1, 2, 3, 4, 5, 9];
                 let pi = prefixes.iter().position(|p| *p == prefix).unwrap_or(0);
@@ -321,11 +323,11 @@ pub fn c07(ctx: &mut Ctx) {
         Tier::Miri => 1,
     };
     c07_exhaustive(ctx, depth);
-    let n = ctx.n(2500, 250_000, 2);
+    let n = ctx.n(8000, 250_000, 2);
     for k in 0..n {
         c07_random(&mut ctx.rep, seed, ctx.shard + k * ctx.nshards, false);
     }
-    let n = ctx.n(800, 80_000, 1);
+    let n = ctx.n(2500, 80_000, 1);
     for k in 0..n {
         c07_presence(&mut ctx.rep, seed, ctx.shard + k * ctx.nshards);
     }
